@@ -162,6 +162,17 @@ class World:
             def read_w(self):
                 raise CommunicationFailedError(ValueError('inner'))
 
+            # commands without a result type whose methods return something all the same (nothing JSON could carry)
+            @Command()
+            def state(self):
+                """state"""
+                return self.status
+
+            @Command()
+            def items(self):
+                """items"""
+                return {1, 2, object()}
+
         self.node = nodes.Node({'d': {'cls': Drv, 'description': 'drv'}, 'r': {'cls': Rd, 'description': 'rd'},
                                 'e': {'cls': Er, 'description': 'failing reads'}}).build()
         self.log = self.node.log
@@ -363,7 +374,7 @@ class World:
              b'logging d "info"', b'logging . "off"', b'logging  "debug"', b'read d:pollinterval', b'change d:pollinterval 2',
              # reads that fail in the driver with an error carrying a number / a wrapped exception (repeated: the second failure
              # takes the 'same error again' path)
-             b'read e:value', b'read e:value', b'read e', b'read e:_w', b'read e:_w']
+             b'read e:value', b'read e:value', b'read e', b'read e:_w', b'read e:_w', b'do e:_state', b'do e:_items']
     HOSTILE = [b'change d:_x "3"', b'change d:_x 3.5', b'change d:_x 11', b'change d:_x', b'change d:_x {bad', b'change d:_x [1', b'change d:_ro 1',
                b'read d:nosuch', b'read nosuch', b'read', b'read d:value extra', b'read d:value 1', b'change nosuch:x 1', b'do d:_twice "2"',
                b'do d:_twice 7', b'do d:_twice', b'do d:nosuch', b'do d', b'do', b'change', b'change d:_x NaN', b'change d:target NaN', b'change d:target NaN', b'read d:target', b'change d:target Infinity',
